@@ -30,27 +30,30 @@ func pow(k, n int) int {
 	return r
 }
 
-// Empty is the empty language.
-func Empty(k, l int) *Lang {
-	out := &Lang{K: k, L: l, b: make([][]uint64, l+1)}
-	for n := 0; n <= l; n++ {
-		out.b[n] = make([]uint64, (pow(k, n)+63)/64)
+// LEmpty is the empty language. Bitsets of lengths that hold no string stay nil.
+func LEmpty(k, l int) *Lang {
+	return &Lang{K: k, L: l, b: make([][]uint64, l+1)}
+}
+
+func (a *Lang) words(n int) []uint64 {
+	if a.b[n] == nil {
+		a.b[n] = make([]uint64, (pow(a.K, n)+63)/64)
 	}
+	return a.b[n]
+}
+
+// LEps is {ε}.
+func LEps(k, l int) *Lang {
+	out := LEmpty(k, l)
+	out.words(0)[0] = 1
 	return out
 }
 
-// Eps is {ε}.
-func Eps(k, l int) *Lang {
-	out := Empty(k, l)
-	out.b[0][0] = 1
-	return out
-}
-
-// Sym is the one-string language {t}.
-func Sym(k, l, t int) *Lang {
-	out := Empty(k, l)
+// LSym is the one-string language {t}.
+func LSym(k, l, t int) *Lang {
+	out := LEmpty(k, l)
 	if l >= 1 {
-		out.b[1][t/64] |= 1 << uint(t%64)
+		out.words(1)[t/64] |= 1 << uint(t%64)
 	}
 	return out
 }
@@ -59,7 +62,9 @@ func Sym(k, l, t int) *Lang {
 func (a *Lang) Clone() *Lang {
 	out := &Lang{K: a.K, L: a.L, b: make([][]uint64, len(a.b))}
 	for n := range a.b {
-		out.b[n] = append([]uint64{}, a.b[n]...)
+		if a.b[n] != nil {
+			out.b[n] = append([]uint64{}, a.b[n]...)
+		}
 	}
 	return out
 }
@@ -67,10 +72,20 @@ func (a *Lang) Clone() *Lang {
 // AddAll adds every string of o to a (in place) and reports whether a grew.
 func (a *Lang) AddAll(o *Lang) bool {
 	changed := false
-	for n := range a.b {
+	for n := range o.b {
+		if o.b[n] == nil {
+			continue
+		}
+		var dst []uint64
 		for i, w := range o.b[n] {
-			if w&^a.b[n][i] != 0 {
-				a.b[n][i] |= w
+			if w == 0 {
+				continue
+			}
+			if dst == nil {
+				dst = a.words(n)
+			}
+			if w&^dst[i] != 0 {
+				dst[i] |= w
 				changed = true
 			}
 		}
@@ -78,8 +93,8 @@ func (a *Lang) AddAll(o *Lang) bool {
 	return changed
 }
 
-// Union is a ∪ o.
-func Union(a, o *Lang) *Lang {
+// LUnion is a ∪ o.
+func LUnion(a, o *Lang) *Lang {
 	out := a.Clone()
 	out.AddAll(o)
 	return out
@@ -95,53 +110,82 @@ func forEachBit(ws []uint64, f func(code int)) {
 	}
 }
 
-// Concat is {xy : x in a, y in o, |xy| <= L}.
-func Concat(a, o *Lang) *Lang {
-	out := Empty(a.K, a.L)
+func codes(ws []uint64, buf []int) []int {
+	buf = buf[:0]
+	for i, w := range ws {
+		for w != 0 {
+			t := bits.TrailingZeros64(w)
+			buf = append(buf, i*64+t)
+			w &^= 1 << uint(t)
+		}
+	}
+	return buf
+}
+
+// LConcat is {xy : x in a, y in o, |xy| <= L}.
+func LConcat(a, o *Lang) *Lang {
+	out := LEmpty(a.K, a.L)
+	var xs, ys []int
 	for i := 0; i <= a.L; i++ {
-		var xs []int
-		forEachBit(a.b[i], func(c int) { xs = append(xs, c) })
+		if a.b[i] == nil {
+			continue
+		}
+		xs = codes(a.b[i], xs)
 		if len(xs) == 0 {
 			continue
 		}
 		sh := pow(a.K, i)
 		for j := 0; i+j <= a.L; j++ {
-			dst := out.b[i+j]
-			forEachBit(o.b[j], func(y int) {
+			if o.b[j] == nil {
+				continue
+			}
+			ys = codes(o.b[j], ys)
+			if len(ys) == 0 {
+				continue
+			}
+			dst := out.words(i + j)
+			for _, y := range ys {
 				base := y * sh
 				for _, x := range xs {
 					c := x + base
-					dst[c/64] |= 1 << uint(c%64)
+					dst[c>>6] |= 1 << uint(c&63)
 				}
-			})
+			}
 		}
 	}
 	return out
 }
 
-// Opt is a ∪ {ε}.
-func Opt(a *Lang) *Lang {
+// LOpt is a ∪ {ε}.
+func LOpt(a *Lang) *Lang {
 	out := a.Clone()
-	out.b[0][0] |= 1
+	out.words(0)[0] |= 1
 	return out
 }
 
-// Star is the Kleene closure of a (least X with X = {ε} ∪ a·X), truncated at L.
-func Star(a *Lang) *Lang {
-	out := Eps(a.K, a.L)
+// LStar is the Kleene closure of a (least X with X = {ε} ∪ a·X), truncated at L.
+func LStar(a *Lang) *Lang {
+	out := LEps(a.K, a.L)
 	for {
-		next := Concat(a, out)
+		next := LConcat(a, out)
 		if !out.AddAll(next) {
 			return out
 		}
 	}
 }
 
-// Plus is a·a*.
-func Plus(a *Lang) *Lang { return Concat(a, Star(a)) }
+// LPlus is a·a*.
+func LPlus(a *Lang) *Lang { return LConcat(a, LStar(a)) }
 
-// SepPlus is a (sep a)*: one or more a separated by sep.
-func SepPlus(a, sep *Lang) *Lang { return Concat(a, Star(Concat(sep, a))) }
+// LSepPlus is a (sep a)*: one or more a separated by sep.
+func LSepPlus(a, sep *Lang) *Lang { return LConcat(a, LStar(LConcat(sep, a))) }
+
+func (a *Lang) word(n, i int) uint64 {
+	if a.b[n] == nil {
+		return 0
+	}
+	return a.b[n][i]
+}
 
 // Equal reports whether both languages hold the same strings.
 func (a *Lang) Equal(o *Lang) bool {
@@ -149,8 +193,8 @@ func (a *Lang) Equal(o *Lang) bool {
 		return false
 	}
 	for n := range a.b {
-		for i := range a.b[n] {
-			if a.b[n][i] != o.b[n][i] {
+		for i, m := 0, (pow(a.K, n)+63)/64; i < m; i++ {
+			if a.word(n, i) != o.word(n, i) {
 				return false
 			}
 		}
@@ -178,8 +222,8 @@ func (a *Lang) Full() bool {
 	return a.Size() == t
 }
 
-// Decode turns a code of the given length into its symbols.
-func Decode(k, n, code int) []int {
+// LDecode turns a code of the given length into its symbols.
+func LDecode(k, n, code int) []int {
 	out := make([]int, n)
 	for i := 0; i < n; i++ {
 		out[i] = code % k
@@ -198,7 +242,7 @@ func (a *Lang) Has(w []int) bool {
 		c += d * m
 		m *= a.K
 	}
-	return a.b[len(w)][c/64]&(1<<uint(c%64)) != 0
+	return a.word(len(w), c/64)&(1<<uint(c%64)) != 0
 }
 
 // Strings lists the members (shortest first, then by code) as strings of bytes 'a'+symbol; at most
@@ -211,7 +255,7 @@ func (a *Lang) Strings(limit int) []string {
 		var ss []string
 		for _, c := range codes {
 			buf := make([]byte, n)
-			for i, d := range Decode(a.K, n, c) {
+			for i, d := range LDecode(a.K, n, c) {
 				buf[i] = byte('a' + d)
 			}
 			ss = append(ss, string(buf))
@@ -232,14 +276,14 @@ func (a *Lang) Strings(limit int) []string {
 func FirstDiff(a, o *Lang) (w []int, inA bool, ok bool) {
 	for n := 0; n <= a.L; n++ {
 		best := -1
-		for i := range a.b[n] {
-			if d := a.b[n][i] ^ o.b[n][i]; d != 0 {
+		for i, m := 0, (pow(a.K, n)+63)/64; i < m; i++ {
+			if d := a.word(n, i) ^ o.word(n, i); d != 0 {
 				best = i*64 + bits.TrailingZeros64(d)
 				break
 			}
 		}
 		if best >= 0 {
-			w = Decode(a.K, n, best)
+			w = LDecode(a.K, n, best)
 			return w, a.Has(w), true
 		}
 	}
@@ -256,25 +300,55 @@ type PRule struct {
 // it derives (least fixpoint of the rule equations).
 func PlainLangs(k, l, nsym int, rules []PRule) []*Lang {
 	out := make([]*Lang, nsym)
+	ver := make([]int, nsym) // bumped whenever the language of a symbol grows
 	for s := 0; s < nsym; s++ {
 		if s < k {
-			out[s] = Sym(k, l, s)
+			out[s] = LSym(k, l, s)
 		} else {
-			out[s] = Empty(k, l)
+			out[s] = LEmpty(k, l)
 		}
 	}
-	eps := Eps(k, l)
+	eps := LEps(k, l)
+	seen := make([]int, len(rules)) // 1 + sum of RHS versions at the last evaluation
 	for changed := true; changed; {
 		changed = false
-		for _, r := range rules {
-			cur := eps
+		for ri, r := range rules {
+			sum := 1
 			for _, s := range r.RHS {
-				cur = Concat(cur, out[s])
+				sum += ver[s]
+			}
+			if seen[ri] == sum {
+				continue // versions only grow: equal sums mean no RHS language has changed
+			}
+			seen[ri] = sum
+			cur := eps
+			for i, s := range r.RHS {
+				if i == 0 {
+					cur = out[s] // ε·X = X (cur is only read below)
+				} else {
+					cur = LConcat(cur, out[s])
+				}
 			}
 			if out[r.LHS].AddAll(cur) {
+				ver[r.LHS]++
 				changed = true
 			}
 		}
 	}
 	return out
+}
+
+// Hash is a 64-bit digest of the set (FNV-1a over the bitsets).
+func (a *Lang) Hash() uint64 {
+	h := uint64(14695981039346656037)
+	for n := range a.b {
+		for i, m := 0, (pow(a.K, n)+63)/64; i < m; i++ {
+			w := a.word(n, i)
+			for s := 0; s < 64; s += 8 {
+				h ^= (w >> uint(s)) & 0xff
+				h *= 1099511628211
+			}
+		}
+	}
+	return h
 }
